@@ -21,7 +21,7 @@ const N_MARKERS: usize = 6;
 enum Spec {
     Module { name: String, children: Vec<Spec> },
     Type { name: String, marker: usize, copy: bool },
-    /// shape: 0 = fn() -> i32, 1 = fn(M) -> i32, 2 = fn() -> M, 3 = fn(Option<M>) -> i32, 4 = fn(List<M>) -> i32
+    /// shape: 0 = fn() -> i32, 1 = fn(M) -> i32, 2 = fn() -> M, 3 = fn(Option<M>) -> i32, 4 = fn(List<M>) -> i32, 5 = fn(Result<M, i32>) -> i32, 6 = fn(Verdict<bool, M>) -> i32
     Function { name: String, shape: u8, marker: usize, tag: i32 },
     Constant { name: String, marker: Option<usize>, value: i32 },
     Impl { marker: usize, methods: Vec<(String, bool, i32)> },
@@ -60,7 +60,7 @@ impl<'c> Gen<'c> {
             let k = self.c.below(if in_impl { 1 } else { 10 });
             let s = match k {
                 0 | 1 | 2 => {
-                    let shape = self.c.below(5) as u8;
+                    let shape = self.c.below(7) as u8;
                     Spec::Function { name: self.name(), shape, marker: self.c.below(N_MARKERS), tag: self.next_tag() }
                 }
                 3 | 4 if depth < 3 => {
@@ -87,7 +87,7 @@ impl<'c> Gen<'c> {
                 }
                 8 => Spec::Use { paths: vec![] }, // filled in later, when the tree is known
                 _ => {
-                    let shape = self.c.below(5) as u8;
+                    let shape = self.c.below(7) as u8;
                     Spec::Function { name: self.name(), shape, marker: self.c.below(N_MARKERS), tag: self.next_tag() }
                 }
             };
@@ -355,7 +355,9 @@ fn build_item(s: &Spec) -> Result<Item, roto::RegistrationError> {
                 1 => Function::new(name.as_str(), "", vec!["x"], move |_x: T| -> i32 { tag }, location!())?.into(),
                 2 => Function::new(name.as_str(), "", vec![], move || -> T { Val(Mk(tag as u8)) }, location!())?.into(),
                 3 => Function::new(name.as_str(), "", vec!["x"], move |_x: Option<T>| -> i32 { tag }, location!())?.into(),
-                _ => Function::new(name.as_str(), "", vec!["x"], move |_x: roto::List<T>| -> i32 { tag }, location!())?.into(),
+                4 => Function::new(name.as_str(), "", vec!["x"], move |_x: roto::List<T>| -> i32 { tag }, location!())?.into(),
+                5 => Function::new(name.as_str(), "", vec!["x"], move |x: Result<T, i32>| -> i32 { if let Err(e) = x { tag + e } else { -1 } }, location!())?.into(),
+                _ => Function::new(name.as_str(), "", vec!["x"], move |x: roto::Verdict<bool, T>| -> i32 { if let roto::Verdict::Accept(true) = x { tag } else { -1 } }, location!())?.into(),
             })
         }
         Spec::Constant { name, marker, value } => match marker {
@@ -391,7 +393,7 @@ fn describe(specs: &[Spec], ind: usize, out: &mut String) {
                 let _ = writeln!(out, "{pad}#[{}] type {name:?} = Val<Mk<{marker}>>;", if *copy { "copy" } else { "clone" });
             }
             Spec::Function { name, shape, marker, tag } => {
-                let sig = ["() -> i32", "(M) -> i32", "() -> M", "(Option<M>) -> i32", "(List<M>) -> i32"][*shape as usize].replace('M', &format!("Mk<{marker}>"));
+                let sig = ["() -> i32", "(M) -> i32", "() -> M", "(Option<M>) -> i32", "(List<M>) -> i32", "(Result<M, i32>) -> i32", "(Verdict<bool, M>) -> i32"][*shape as usize].replace('M', &format!("Mk<{marker}>"));
                 let _ = writeln!(out, "{pad}fn {name:?}{sig}  // tag {tag}");
             }
             Spec::Constant { name, marker, value } => {
@@ -729,7 +731,10 @@ impl WorkerState for W {
                     0 | 2 => Some(String::new()),
                     1 => maker,
                     3 => Some("Option.None".into()),
-                    _ => Some("[]".into()),
+                    4 => Some("[]".into()),
+                    // the payloads tell the two type arguments apart
+                    5 => Some("Result.Err(0)".into()),
+                    _ => Some("Verdict.Accept(true)".into()),
                 }
             };
             for (i, (p, shape, marker, tag)) in model.fns.iter().enumerate() {
@@ -837,7 +842,7 @@ impl Prop for C18P {
         "C18"
     }
     fn rule(&self) -> String {
-        "libraries built with the programmatic API (Module::new, Type::clone/copy::<Val<Mk<N>>> over 6 marker types, Function::new over closures of 5 signature shapes mentioning marker types / Option / List of them, Constant::new, Impl::new, Use::new) as random trees (depth <= 3) in random item order, registered by 1-2 add calls, optionally with one injected defect (invalid name, identifier plus trivia, use of a missing path, empty use path, function mentioning an unregistered type; duplicate names and doubly registered types arise from the small name pools); oracle: a registry model (five passes, scopes, name tables) predicts Ok/Err for each add call, the real calls must agree and never panic; after success a generated script calls every function, constant, method and static method by its declared path and checks the identity tag, and an undeclared path must not compile. Non-trivial: a function at module depth >= 2 or an impl block is present, or the library is refused; distinct by library description".into()
+        "libraries built with the programmatic API (Module::new, Type::clone/copy::<Val<Mk<N>>> over 6 marker types, Function::new over closures of 7 signature shapes mentioning marker types / Option / List / Result / Verdict of them, Constant::new, Impl::new, Use::new) as random trees (depth <= 3) in random item order, registered by 1-2 add calls, optionally with one injected defect (invalid name, identifier plus trivia, use of a missing path, empty use path, function mentioning an unregistered type; duplicate names and doubly registered types arise from the small name pools); oracle: a registry model (five passes, scopes, name tables) predicts Ok/Err for each add call, the real calls must agree and never panic; after success a generated script calls every function, constant, method and static method by its declared path and checks the identity tag, and an undeclared path must not compile. Non-trivial: a function at module depth >= 2 or an impl block is present, or the library is refused; distinct by library description".into()
     }
     fn assumptions(&self) -> Vec<String> {
         vec![
